@@ -77,7 +77,7 @@ class G:
     def node(self):
         r = self.rnd
         k = r.choice(['word'] * 6 + ['fl', 'fl', 'ol', 'sel', 'unk', 'foot', 'same', 'decl', 'item', 'head',
-                                     'sel_in', 'optend', 'ol_lines', 'ol_lines']) if self.depth < 3 else 'word'
+                                     'sel_in', 'optend', 'ol_lines', 'ol_lines', 'mbox_fl']) if self.depth < 3 else 'word'
         if k == 'sel' and (self.depth > 0 or self.infoot):
             k = 'word'
         if k == 'ol_lines' and (self.depth > 0 or self.infoot):
@@ -175,6 +175,19 @@ class G:
             self.stack.pop()
             self.w('\n\\end{otherlanguage}\n')
             self.word()
+        elif k == 'mbox_fl':
+            # language command inside the text part of an inline formula
+            lang = self.other()
+            self.w(r.choice(['$a \\mbox{ ', '\\(b = \\mbox{']))
+            self.w('\\foreignlanguage{%s}{' % lang)
+            self.stack.append(LMAP[lang])
+            for i in range(r.randint(1, 5)):
+                if i:
+                    self.w(' ')
+                self.word()
+            self.stack.pop()
+            self.w('}')
+            self.w(r.choice([' } c$', '}\\)']))
         elif k == 'sel':
             lang = self.other()
             self.w('\\selectlanguage{%s}' % lang)
@@ -378,7 +391,7 @@ class C12(core.Check):
 
     def quotas(self, tier):
         q = {'docs_multi': 3000, 'probes_joined': 300, 'probes_split': 300, 'babel_options_2': 100, 'babel_options_3': 100}
-        for k in ('fl', 'ol', 'sel', 'same', 'sel_in', 'foot', 'head', 'decl', 'optend', 'ol_lines', 'compound'):
+        for k in ('fl', 'ol', 'sel', 'same', 'sel_in', 'foot', 'head', 'decl', 'optend', 'ol_lines', 'compound', 'mbox_fl'):
             q['kind_' + k] = 200
         return q
 
